@@ -28,4 +28,26 @@ PLAN = {
                 quick=[("rt", "release", 30000)],
                 thorough=[("rt", "release", 1000000)],
                 assumptions=[]),
+    "C13": dict(level="fault_enumeration",
+                rule=("each run draws one transaction (encode+finalize through a writer front-end on a raw / caller-buffered / "
+                      "crate-style owned-BufWriter sink; write_blocks; update_file in place or rebuilt; FlacStreamWriter; "
+                      "read-side decode / verify / FrameIterator / generate_seektable), executes a fault-free twin to count its "
+                      "N I/O events, then re-executes it once per fault placement: every event index n < N x {error once, error "
+                      "from n on, write-zero from n on} plus disk-full at every write boundary (capacity b, b+1, end-1). Each "
+                      "placement is one evaluation; it is non-trivial if the injected fault actually fired; distinct = distinct "
+                      "hashes of the full I/O event sequence and result"),
+                exhaustive_subspaces=["per scenario: every fault index n < N for N <= 1500 events (strided above), every fault kind"],
+                quick=[("c13", "release", 1500)],
+                thorough=[("c13", "release", 40000), ("c13", "checked", 6000)],
+                assumptions=["hard faults are ErrorKind::Other / StorageFull / Ok(0); an injected UnexpectedEof is indistinguishable from a real end and is excluded",
+                             "nothing is asserted about calls made after the first Err"]),
+    "C14": dict(level="fault_enumeration",
+                rule=("each run encodes a drawn PCM through a drawn front-end (optionally behind a BufWriter) and leaks the writer "
+                      "before finalize; every prefix of the append stream at write-call granularity, and at every byte for small "
+                      "outputs, is handed to a reader (rotating over the 10 reader front-ends and verify_reader); one prefix x "
+                      "reader = one evaluation; all are non-trivial; distinct = distinct (I/O event sequence, delivered length) hashes"),
+                exhaustive_subspaces=["per scenario: every write-event crash point; every byte crash point for outputs <= 1500 (quick) / 4096 (thorough) bytes"],
+                quick=[("c14", "release", 1200)],
+                thorough=[("c14", "release", 40000), ("c14", "checked", 5000)],
+                assumptions=["frame boundaries of the append stream come from refflac", "crashes during finalize are outside the property"]),
 }
